@@ -276,6 +276,23 @@ def harness(S, spec):
     cleanup = _links(dirs['cleanup'])
     apps = sorted(os.listdir(dirs['apps']))
     S.trace[:] = [('links', running, cleanup)]
+    # Is the post-state again inside the pre-state invariant this harness
+    # assumes?  (Diagnostic for the inductive argument, counted in the
+    # evidence; not an assertion of the property: a post-state outside the
+    # invariant means the harness should widen its pre-states.)
+    closed = True
+    for g in ('g1', 'g2'):
+        has_marker = any(os.path.exists(os.path.join(
+            dirs['apps'], cname[g], 'data', mk))
+            for mk in ('exitinfo', 'aborted', 'oom'))
+        if cname[g] in cleanup and cleanup[cname[g]] == cname[g]:
+            closed = closed and (cache != g or has_marker)
+        if cleanup.get(INST) == cname[g]:
+            closed = closed and (has_marker or cache != g)
+    if mgr._is_active and running.get(INST) is not None:
+        closed = closed and running.get(INST) == cname.get(cache)
+    S.reach('post_state_inside_invariant' if closed
+            else 'post_state_outside_invariant')
     # (O1) one link per container
     for c in apps:
         n = sum(1 for t in running.values() if t == c) + \
